@@ -337,8 +337,8 @@ PROPS["C09"] = dict(
           "strictly between empty; symbolic s, t, occ", functions=UNOPT[:1], timeout=2400, heavy=True),
         K("c09", "c09_bishop_unoptimized_contract", desc="same for bishop diagonals", functions=UNOPT[1:], timeout=2400, heavy=True),
         K("c09", "c09_rook_slide_masks_builder_contract", desc="compute_rook_slide_masks()[s].test(t) <=> t on a rook line from s and not the last square of its ray; "
-          "symbolic s, t (the builder is called directly; the lazy static only caches its result)", functions=["data::compute_rook_slide_masks"], timeout=2400, tier="experimental", heavy=True),
-        K("c09", "c09_bishop_slide_masks_builder_contract", desc="same for the bishop masks", functions=["data::compute_bishop_slide_masks"], timeout=2400, tier="experimental", heavy=True),
+          "symbolic s, t (the builder is called directly; the lazy static only caches its result)", functions=["data::compute_rook_slide_masks"], timeout=2400, heavy=True),
+        K("c09", "c09_bishop_slide_masks_builder_contract", desc="same for the bishop masks", functions=["data::compute_bishop_slide_masks"], timeout=2400, heavy=True),
         K("c09l", "c09_lookups_read_the_masked_magic_key", desc="AttackGenerator::compute_{rook,bishop,queen}_attacks (verbatim, against ABSTRACT tables): the look-up "
           "reads row `square` of the piece's own filled table at ((occ & MASK[sq]) * MAGIC[sq]) >> (64 - WIDTH[sq]) for every table content, square and "
           "occupancy; queen = rook | bishop", functions=["AttackGenerator::compute_rook_attacks", "AttackGenerator::compute_bishop_attacks",
@@ -552,7 +552,8 @@ PROPS["C11"] = dict(
         K("c11w", "c11_piece_letter_display_contract", desc="Display for PieceIndex through the real core::fmt: exactly one byte, the letter of the kind, "
           "upper case for White (the contract the extracted writer is compiled against)", functions=["<PieceIndex as Display>::fmt"], timeout=1500),
         K("c11w", "c11_writer_fields_contract", desc="the FEN WRITER (whole body extracted verbatim, write! bound to a byte sink): for both sides, all 16 castling "
-          "sets, every en-passant target or none and all clocks 0..999 the written line is the canonical line byte for byte (placement: two kings)",
+          "sets, every en-passant target or none and both clocks (std's decimal text kept abstract) the written line is the canonical line byte for byte "
+          "(placement: two kings)",
           functions=["<Fen as IntoNotation<State>>::into_notation (body, extracted)"], timeout=3000, heavy=True),
     ] + [
         K("c11w", "c11_writer_placement_rank_%d" % r, kind="bounded", bound="rank %d fully symbolic (13^8 contents), the other seven ranks empty" % r,
